@@ -144,7 +144,46 @@ func buildAPI(d *taxDef, rng *rand.Rand) (tx *obitax.Taxonomy, loaded int, probl
 	problem = guarded14(func() {
 		t := obitax.NewTaxonomy()
 		order := rng.Perm(d.n())
+		declared := false
+		if d.n() >= 3 && rng.Intn(2) == 0 {
+			// a taxonomy with a history: most taxa are first declared somewhere else (under the root, other
+			// rank), some not at all, and indexed; the loop below then re-declares (replace) or adds every
+			// taxon as d has it, and the taxonomy is indexed again. What it answers afterwards is d.
+			root := d.rootTaxid()
+			type decl struct {
+				par int
+				rk  string
+			}
+			first := map[int]decl{}
+			for _, i := range order {
+				if i+1 != root && rng.Intn(4) == 0 {
+					continue
+				}
+				par, rk := d.Parent[i], d.Rank[i]
+				if i+1 != root && rng.Intn(2) == 0 {
+					par, rk = root, d.Rank[rng.Intn(d.n())]
+				}
+				if _, err := t.AddNewTaxa(i+1, par, rk, false, true); err != nil {
+					panic(err)
+				}
+				first[i] = decl{par, rk}
+			}
+			// a taxon declared with its final parent may miss it for now: the second indexing links it
+			_ = t.ReindexParent()
+			for _, i := range order {
+				if f, ok := first[i]; ok && f.par == d.Parent[i] && f.rk == d.Rank[i] {
+					continue // as d has it already: left alone
+				}
+				if _, err := t.AddNewTaxa(i+1, d.Parent[i], d.Rank[i], true, true); err != nil {
+					panic(err)
+				}
+			}
+			declared = true
+		}
 		for _, i := range order {
+			if declared {
+				break
+			}
 			if _, err := t.AddNewTaxa(i+1, d.Parent[i], d.Rank[i], false, true); err != nil {
 				panic(err)
 			}
@@ -196,8 +235,18 @@ func writeDump(dir string, d *taxDef, rng *rand.Rand) error {
 			fmt.Fprintf(&names, "%d\t|\tcommon %s\t|\t\t|\tgenbank common name\t|\n", i+1, d.Name[i])
 		}
 	}
-	for _, a := range d.Alias {
-		fmt.Fprintf(&merged, "%d\t|\t%d\t|\n", a[0], a[1])
+	// a merged id may point at an id that was itself merged before (old2 -> old1 -> node): half of the
+	// aliases that share their target with an earlier one are written as such a chain; the meaning
+	// (old2 is an alias of the node) is the same
+	for k, a := range d.Alias {
+		target := a[1]
+		for j := 0; j < k; j++ {
+			if d.Alias[j][1] == a[1] && rng.Intn(2) == 0 {
+				target = d.Alias[j][0]
+				break
+			}
+		}
+		fmt.Fprintf(&merged, "%d\t|\t%d\t|\n", a[0], target)
 	}
 	for f, b := range map[string]*bytes.Buffer{"nodes.dmp": &nodes, "names.dmp": &names, "merged.dmp": &merged} {
 		if err := os.WriteFile(filepath.Join(dir, f), b.Bytes(), 0o644); err != nil {
